@@ -505,6 +505,62 @@ func c04E2(ctx *core.Ctx, rep *core.Report, mocks []*lcMock) {
 			polSets = append(polSets, []string{polAtoms[i], polAtoms[j]})
 		}
 	}
+	// near misses of every scope-defining policy identifier, each as a policy of its own: the parent arc, a child arc, both
+	// sibling arcs, the identifier under a neighbouring root — an identifier is an indication only if it IS one of the
+	// reserved identifiers (prefix / length / range slips in a hand-written comparison show up here and nowhere else)
+	reserved := map[string]bool{"2.23.140.1.2.1": true, "2.23.140.1.2.2": true, "2.23.140.1.2.3": true, "2.23.140.1.1": true, "2.23.140.1.4.1": true, "2.23.140.1.3": true}
+	for p := range smimePolicies {
+		reserved[p] = true
+	}
+	var resList []string
+	for p := range reserved {
+		resList = append(resList, p)
+	}
+	sortStrings(resList)
+	nearSeen := map[string]bool{}
+	var nearMiss []string
+	for _, p := range resList {
+		arcs := dotted(p)
+		join := func(a []int) string {
+			parts := make([]string, len(a))
+			for i, v := range a {
+				parts[i] = fmt.Sprint(v)
+			}
+			return strings.Join(parts, ".")
+		}
+		var cands [][]int
+		cands = append(cands, append([]int{}, arcs[:len(arcs)-1]...))               // parent
+		cands = append(cands, append(append([]int{}, arcs...), 1))                 // child .1
+		cands = append(cands, append(append([]int{}, arcs...), 0))                 // child .0
+		for _, d := range []int{-1, 1, 256} {                                       // siblings, and last arc + 256 (low byte equal)
+			c := append([]int{}, arcs...)
+			c[len(c)-1] += d
+			if c[len(c)-1] >= 0 {
+				cands = append(cands, c)
+			}
+		}
+		for i := 2; i < len(arcs)-1; i++ { // one inner arc changed
+			c := append([]int{}, arcs...)
+			c[i]++
+			cands = append(cands, c)
+		}
+		c := append([]int{}, arcs...) // neighbouring root
+		c[1]++
+		cands = append(cands, c)
+		for _, c := range cands {
+			n := join(c)
+			if len(c) < 3 || reserved[n] || nearSeen[n] {
+				continue
+			}
+			nearSeen[n] = true
+			nearMiss = append(nearMiss, n)
+		}
+	}
+	rep.Add("g_scope_policy_near_misses", int64(len(nearMiss)))
+	var nearSets [][]string
+	for _, n := range nearMiss {
+		nearSets = append(nearSets, []string{n}, []string{"1.3.6.1.4.1.99999.1", n})
+	}
 	if ctx.Quick() {
 		// pairs of policies only among the first 8 atoms (the gate-relevant ones)
 		var ps [][]string
@@ -549,9 +605,38 @@ func c04E2(ctx *core.Ctx, rep *core.Report, mocks []*lcMock) {
 	}
 	rep.Add("g_gated_real_lints", int64(len(realNames)))
 	lcControl = lcCtl{applies: true, outcome: int(lint.Error)}
+	type scopePoint struct {
+		es, ps []string
+		em     string
+	}
+	var points []scopePoint
+	emails := []string{"none", "empty", "a@b", "smtputf8", "smtputf8-empty", "upn", "othername-empty"}
 	for _, es := range ekuSets {
 		for _, ps := range polSets {
-			for _, em := range []string{"none", "empty", "a@b", "smtputf8", "smtputf8-empty", "upn", "othername-empty"} {
+			for _, em := range emails {
+				points = append(points, scopePoint{es, ps, em})
+			}
+		}
+	}
+	// near-miss identifiers × the EKU sets that leave the decision to the policy (every single EKU, none, and the pairs
+	// without an in-scope usage) × {no e-mail name, a mailbox}
+	for _, es := range ekuSets {
+		if len(es) > 2 {
+			continue
+		}
+		if len(es) == 2 && ctx.Quick() {
+			continue
+		}
+		for _, ps := range nearSets {
+			for _, em := range []string{"none", "a@b"} {
+				points = append(points, scopePoint{es, ps, em})
+			}
+		}
+	}
+	{
+		for _, pt := range points {
+			for range []int{0} { // (one iteration: keeps `continue` meaning "next point")
+				es, ps, em := pt.es, pt.ps, pt.em
 				f := scopeFacts{ekus: es, policies: ps, emailSAN: em}
 				b := scopeCert(f, date(2024, 1, 1))
 				o, err := zl.Parse(seeds.Cert, b)
